@@ -145,6 +145,28 @@ def prehistoryResp (c : Cfg) : World :=
 
 def scriptResp (c : Cfg) : World := (introduce c (prehistoryResp c)).walkAll 1
 
+/-! ## further histories of how the introducer learned P -/
+
+/-- P contacted the introducer once more AFTER it learned its own WAN address from the first response (its later request
+    carries source_wan_address ≠ source_lan_address) -/
+def prehistoryRepeat (c : Cfg) : World :=
+  let w := prehistory c
+  if c.newStyle then w.ask 2 0 else w.walk 2 addrI
+
+/-- P walked to the introducer, then the introducer itself asked P (so it also holds what P's response says) -/
+def prehistoryReqResp (c : Cfg) : World := (prehistory c).ask 0 2
+
+/-- the introducer learned P from its response (via X), then P — knowing its WAN address from X — walked to the introducer -/
+def prehistoryRespReq (c : Cfg) : World :=
+  let w := prehistoryResp c
+  if c.newStyle then (w.walk 2 addrI).ask 2 0 else w.walk 2 addrI
+
+def scriptFrom (c : Cfg) (w0 : World) : World := (introduce c w0).walkAll 1
+
+/-- the conclusion of the script started from `w0` -/
+def allOkW (c : Cfg) (w0 : World) : Bool :=
+  introductionOkW c w0 && contactOkW c w0 && mutualOk c (scriptFrom c w0) && (!sameBox c || lanOnlyW c w0)
+
 /-! ## more candidates at the introducer -/
 
 /-- further candidates (hosts 3..6): public full-cone, port-restricted behind box 1 (R's box whenever R is boxed),
